@@ -1,6 +1,7 @@
 import GoframeModel.Ops.Clean
 import GoframeModel.Spec.Select
-import GoframeModel.Lemmas.Refine
+import GoframeModel.Lemmas.RefineA
+import GoframeModel.Lemmas.Clean
 /-
   C15 — cleaning and column conversion are exact and all-or-nothing.
 -/
@@ -14,12 +15,12 @@ def outcomeOfOption (e : Option Frame) (o : Outcome Frame) : Prop :=
 
 /-- `FillNa` replaces exactly the nil cells and changes nothing else -/
 theorem fillNa_spec (f : Frame) (v : Cell) : f.fillNa v = Spec.fillNaSpec f v := by
-  sorry
+  exact fillNa_eq f v
 
 /-- `DropNa` removes exactly the rows containing a nil and keeps the others in order -/
 theorem dropNa_spec {f : Frame} {n : Nat} (hs : f.Sorted) (hr : f.RectN n) :
     f.dropNa = .ok (Spec.dropNaSpec f) := by
-  sorry
+  exact dropNa_eq hs hr
 
 /-- no float cell of the column is NaN or ±Inf (Go leaves `int(NaN)` implementation-defined) -/
 def FiniteCol (f : Frame) (k : Str) : Prop :=
@@ -29,21 +30,30 @@ def FiniteCol (f : Frame) (k : Str) : Prop :=
 the model being a function of the old frame, nothing is changed) -/
 theorem astype_spec (ω : Oracle) {f : Frame} (hs : f.Sorted) (k ty : Str) (hfin : FiniteCol f k) :
     outcomeOfOption (Spec.astypeSpec ω f k ty) (f.astype ω k ty) := by
-  sorry
+  have h := astype_refines ω hs k ty hfin
+  unfold outcomeOfOption
+  split <;> rename_i e <;> rw [e] at h
+  · exact h.some
+  · exact h.none
 
 theorem addDatetimeIndex_spec (ω : Oracle) {f : Frame} (hs : f.Sorted) (k layout : Str) :
     outcomeOfOption (Spec.addDatetimeIndexSpec ω f k layout) (f.addDatetimeIndex ω k layout) := by
-  sorry
+  have h := addDatetimeIndex_refines ω hs k layout
+  unfold outcomeOfOption
+  split <;> rename_i e <;> rw [e] at h
+  · exact h.some
+  · exact h.none
 
 /-- a successful conversion touches only the named column -/
 theorem astype_other_columns (ω : Oracle) {f f' : Frame} (hs : f.Sorted) (k ty : Str)
     (h : f.astype ω k ty = .ok f') : ∀ k', k' ≠ k → f'.get? k' = f.get? k' := by
-  sorry
+  have _ := hs
+  exact astype_other h
 
 /-- float64 → int is truncation toward zero -/
 theorem trunc_toward_zero (q : Rat) :
     (0 ≤ q → (truncToInt q : Rat) ≤ q ∧ q < (truncToInt q : Rat) + 1) ∧
     (q ≤ 0 → q ≤ (truncToInt q : Rat) ∧ (truncToInt q : Rat) - 1 < q) := by
-  sorry
+  exact truncToInt_bounds q
 
 end Goframe.C15
